@@ -26,7 +26,7 @@ EXPLANATION = (
 ASSUMPTIONS = ["payload values are opaque to the code (moved, never inspected)", "real JSON wire for the sent message"]
 TRUSTED = ["vt.sym explorer", "pydantic ScheduledTask (executed)"]
 BOUNDS = {"firings per run": 2, "tasks": "2 own + 1 foreign", "entries per task": "<= 3 quick / 4 thorough (task 1), <= 2 (task 2)", "distinct times": "2 naive + 1 timezone-aware"}
-REQUIRED_COVERS = ["cancelled", "sent", "async_pre", "sync_pre", "second_firing", "listing", "fired_time", "fired_cron", "duplicate_times", "foreign", "aware_time"]
+REQUIRED_COVERS = ["cancelled", "sent", "async_pre", "sync_pre", "second_firing", "listing", "fired_time", "fired_cron", "duplicate_times", "foreign", "aware_time", "global_registry_broker"]
 
 T_A = dt.datetime(2030, 1, 1, 12, 0, 0)
 T_B = dt.datetime(2030, 1, 1, 12, 5, 0)
@@ -40,6 +40,8 @@ def cases(tier: str, hname: str) -> List[Any]:
     out = []
     for e1 in itertools.product(range(len(ENTRY)), repeat=3):
         out.append({"t1": list(e1), "max1": 3})
+    for e1 in itertools.product((0, 1, 2), repeat=3):
+        out.append({"t1": list(e1), "max1": 3, "global": True})
     if tier == "thorough":
         for e1 in itertools.product(range(4), repeat=4):  # four entries, without the timezone-aware kind
             out.append({"t1": list(e1), "max1": 4, "only4": True})
@@ -88,7 +90,7 @@ def on_ready(c: sym.Ctx, case: Dict[str, Any]) -> None:
         variants = [
             {"labels": {"prio": 5, "who": "a"}, "args": [1, "x"], "kwargs": {"k": [1, 2]}},
             {"labels": {}, "args": [], "kwargs": {}},
-            {"labels": {"who": "b"}, "args": [{"d": 1}], "kwargs": {"z": None}},
+            {"labels": {"who": "b", "opt": None, "zero": 0, "empty": ""}, "args": [{"d": 1}], "kwargs": {"z": None}},
         ]
         v1 = variants[c.choose(3, "payload1")]
         v2 = variants[c.choose(3, "payload2")]
@@ -128,7 +130,8 @@ def on_ready(c: sym.Ctx, case: Dict[str, Any]) -> None:
             continue
         msg = broker.formatter.loads(kicks[0][2].message)
         msg.parse_labels()
-        want_labels = {**v["labels"], "schedule_id": s.schedule_id}
+        # labels outside the five primitive types travel as their text form (prepare_label): None arrives as "None"
+        want_labels = {**{k: ("None" if x is None else x) for k, x in v["labels"].items()}, "schedule_id": s.schedule_id}
         c.check(msg.task_name == s.task_name and list(msg.args) == v["args"] and dict(msg.kwargs) == v["kwargs"], "message_carries_schedule_payload",
                 firing=n, name=msg.task_name, args=msg.args, kwargs=msg.kwargs)
         c.check(dict(msg.labels) == want_labels and all(type(msg.labels[k]) is type(want_labels[k]) for k in want_labels),
@@ -158,6 +161,10 @@ def label_source(c: sym.Ctx, case: Dict[str, Any]) -> None:
     saved_global = dict(AsyncBroker.global_task_registry)
     try:
         broker = make_broker(lab)
+        if case.get("global"):
+            # a broker whose registration hook stores its own tasks in the class-level registry (as AsyncSharedBroker does)
+            c.cover("global_registry_broker")
+            broker._register_task = lambda name, task: AsyncBroker.global_task_registry.__setitem__(name, task)  # type: ignore[method-assign]
         kinds1 = [ENTRY[k] for k in case["t1"]][: (4 if case.get("only4") else c.choose(list(range(1, case.get("max1", 3) + 1)), "n1"))]
         kinds2 = [ENTRY[c.choose(4, f"t2.{k}")] for k in range(c.choose([0, 1, 2], "n2"))]
         if "timeC" in kinds1:
